@@ -648,6 +648,9 @@ func (s *Store) GetFunctionTypeID(t *FunctionType) (FunctionTypeID, error) {
 	if !ok {
 		s.mux.Lock()
 		defer s.mux.Unlock()
+		if s.typeIDs == nil {
+			return 0, errors.New("already closed")
+		}
 		// Check again in case another goroutine has already added the type.
 		if id, ok = s.typeIDs[key]; ok {
 			return id, nil
